@@ -2,7 +2,8 @@
     Only statements here; proofs live in Proofs/Qr*.v. *)
 From Qv Require Import Common.Bytes Gen.GenQrdata Model.Mime Model.QrData Spec.SmtpDataSpec
   Proofs.QrNeedRecodeProofs Proofs.QrPlainSpecProofs Proofs.QrQpDecodeProofs Proofs.QrQpTopProofs Proofs.QrWrapLineProofs
-  Spec.DeliverSpec Proofs.QrPhaseProofs Proofs.QrContentProofs.
+  Spec.DeliverSpec Spec.MultipartSpec Proofs.QrPhaseProofs Proofs.QrEntityProofs Proofs.QrContentProofs Proofs.QrMultiContentProofs.
+Require Import Lia.
 
 (** When no recoding is necessary, what is sent after the 354 is, byte for byte, the message with CR, LF
     and CRLF line ends normalised to CRLF (a final CRLF added if missing; the empty message stays
@@ -72,6 +73,39 @@ Theorem C07_recoded_content : forall (m helo : bytes) (ext8 : bool),
 Proof. exact send_data_content_nomulti. Qed.
 Print Assumptions C07_recoded_content.
 
+(** "... and every well-formed multipart message, whose parts are recoded individually."
+    Spec/MultipartSpec.v defines, on the octets of the message only:
+    - [delim_at bnd u q]: a delimiter line starts at q (line end, "--", the boundary; behind it the end of the
+      data, white space, or "--" and then the end or white space); [find_delim]: the first one;
+    - [wf_ent]: well-formed as far as the recoder follows the structure of RFC 2046.  A multipart entity: its body
+      has a first delimiter (the preamble and that line need no recoding), which is no close delimiter; every
+      delimiter line ends, behind optional padding, with a line end; the parts reach up to the next delimiter;
+      the last delimiter is the close delimiter; the epilogue needs no recoding.  A part that needs recoding
+      (8-bit octets without 8BITMIME, a line over 998 octets) is an entity of its own and has to be well-formed
+      itself — a nested multipart to any depth, or anything that is no multipart.  Parts that need no
+      recoding may be anything;
+    - [ent_sent]: what goes out for such an entity.  No multipart: as in [C07_recoded_content] (header unfolded,
+      Content-Transfer-Encoding field taken out and the two marker lines put in iff the body is recoded, body
+      quoted-printable that the strict receiver decodes to it, or dot-stuffed and CRLF-normalised).  Multipart:
+      the header unfolded without its Content-Transfer-Encoding field; preamble and first delimiter line
+      CRLF-normalised and dot-stuffed; then per part the part as it is (normalised, dot-stuffed) if it needs no
+      recoding and else [ent_sent] of it, followed by the delimiter line "--boundary CRLF" (padding dropped); the
+      close delimiter "--boundary-- CRLF"; the epilogue normalised and dot-stuffed.
+    The header analysis ([hview m b len h boundary s l]: end of the header, boundary if multipart, the
+    Content-Transfer-Encoding field) is the one of the code: [qh_view] (Proofs/QrEntityProofs.v) and
+    is_multipart() on the Content-Type field it records; [C07_header_fields] says what these are.
+    Theorem: a well-formed message that takes the recoding path and completes is written as [ent_sent] says,
+    up to one CRLF (an empty line) in front of the terminator. *)
+Theorem C07_multipart_content : forall (m helo : bytes) (ext8 : bool),
+  line_clean helo /\ seven_bit helo /\ length helo <= 255 ->
+  Forall (fun c => (c < 256)%N) m ->
+  wf_ent m ext8 (hview m) 0 (length m) ->
+  forall fl st, send_data m helo ext8 = Ok (fl, true, Done tt st) ->
+  exists W extra, concat (rev (out st)) = W ++ extra ++ TERMINATOR /\ (extra = [] \/ extra = CRLF) /\
+                  ent_sent m ext8 (RECODED_STR ++ helo ++ CRLF) (hview m) 0 (length m) W.
+Proof. exact send_data_multipart_content. Qed.
+Print Assumptions C07_multipart_content.
+
 (** wrap_line() on any line of at least WL_LONG octets: what it writes is the dot-stuffed line followed by
     CRLF with "CRLF SP" inserted at some places — [unfolds_to], the relation with which the C07 checker
     undoes the folding, holds.  (The blank in front of a folding point stays, a blank is added behind it.) *)
@@ -99,3 +133,27 @@ Example C07_recoded_nonvacuous :
   let m := [83; 58; 32; 120; 13; 10; 13; 10; 104; 228; 13; 10]%N in
   exists fl st, send_data m [104]%N false = Ok (fl, true, Done tt st) /\ f8 fl || fline fl = true.
 Proof. eexists. eexists. split; [vm_compute; reflexivity|reflexivity]. Qed.
+
+(** the well-formedness predicate is met by a real multipart message, which takes the recoding path and completes:
+    "Content-Type: multipart/mixed; boundary=x" CRLF CRLF "--x" CRLF "A: b" CRLF CRLF "h" 0xE4 CRLF "--x--" CRLF *)
+Definition C07_EX : bytes := [67;111;110;116;101;110;116;45;84;121;112;101;58;32;109;117;108;116;105;112;97;114;116;47;109;105;120;101;100;59;32;98;111;117;110;100;97;114;121;61;120;13;10;13;10;45;45;120;13;10;65;58;32;98;13;10;13;10;104;228;13;10;45;45;120;45;45;13;10]%N.
+Example C07_multipart_nonvacuous : wf_ent C07_EX false (hview C07_EX) 0 (length C07_EX) /\
+  exists fl st, send_data C07_EX [104]%N false = Ok (fl, true, Done tt st).
+Proof.
+  split.
+  - eapply (wf_multi C07_EX false (hview C07_EX) 0 (length C07_EX) 43 [120%N] 0 0 1).
+    + exists (0, 43), (MpYes 40 1). split; [vm_compute; reflexivity|]. split; [vm_compute; reflexivity|]. right. exists 40, 1. split; reflexivity.
+    + vm_compute. reflexivity.
+    + vm_compute. reflexivity.
+    + vm_compute. reflexivity.
+    + vm_compute. reflexivity.
+    + vm_compute. lia.
+    + eapply (wfp_last C07_EX false (hview C07_EX) [120%N] _ _ 11).
+      * vm_compute. reflexivity.
+      * vm_compute. reflexivity.
+      * vm_compute. reflexivity.
+      * vm_compute. reflexivity.
+      * intros _. eapply (wf_single C07_EX false (hview C07_EX) _ _ 6 0 0).
+        exists (0, 0), MpNo. split; [vm_compute; reflexivity|]. split; [vm_compute; reflexivity|]. left. auto.
+  - eexists. eexists. vm_compute. reflexivity.
+Qed.
